@@ -422,6 +422,7 @@ type c39Release struct {
 	AtUs, Seq int64
 	ID        string // the client id given to the delkey script
 	LockAtUs  int64  // when the lock it removed had been taken
+	BySet     bool   // the lock was replaced by a setkey script (a value stored over it), not removed by delkey
 }
 
 type c39Truth struct {
@@ -529,6 +530,10 @@ func c39BuildTruth(events []fakeredis.Event) c39Truth {
 					}
 				case "setkey":
 					if e.Reply.T == '+' && len(e.Argv) > 5 {
+						if st := cur(k); st.Kind == "lock" {
+							// (the holder's own store at the end of its load, or - same client id - a sibling's)
+							tr.Releases[k] = append(tr.Releases[k], c39Release{AtUs: e.At, Seq: e.Seq, ID: e.Argv[4], LockAtUs: st.AtUs, BySet: true})
+						}
 						put(e, k, "val", e.Argv[5])
 					}
 				case "delkey":
@@ -749,6 +754,12 @@ func c39Check(col *stat.Collector, rt stat.Fataler, plan c39Plan, run c39Run, tr
 				for _, r := range tr.Releases[key] {
 					for _, m := range cluster {
 						stillLoading := !m.l.Done || m.l.EndUs > r.AtUs || (m.l.EndUs == r.AtUs && !m.l.Failed)
+						if r.BySet {
+							// a holder stores its value only after its loader has returned: a store over the lock while the
+							// loader runs is a sibling's (its own lock expired, the script matched the shared client id), and
+							// that value's shorter TTL then frees the key under the holder
+							stillLoading = !m.l.Done || m.l.EndUs > r.AtUs
+						}
 						if r.LockAtUs == m.l.StartUs && r.AtUs >= m.l.StartUs && stillLoading && r.AtUs <= to {
 							excuse = "sibling-release"
 						}
